@@ -114,6 +114,38 @@ def _align(comps, linkflags, segs, full, icase):
     return ok(0, 0)
 
 
+def ambiguous_link_alignment(comps, linkflags, segs, icase=False):
+    """True iff the full path can be aligned with the pattern both without and with a symlink component (other than the
+    last) taken by a globstar that does not follow links.  (Class of finding K29: the REALPATH check of globmatch looks at
+    the one alignment the regex engine happens to find.)"""
+    k, n = len(comps), len(segs)
+    if not _align(comps, linkflags, segs, True, icase):
+        return False
+    memo = {}
+
+    def dirty(i, j, d):
+        key = (i, j, d)
+        if key in memo:
+            return memo[key]
+        if i == k:
+            r = d and all(s[0] == 'gs' for s in segs[j:])
+        elif j == n:
+            r = False
+        else:
+            s = segs[j]
+            if s[0] == 'gs':
+                bad = linkflags[i] and not s[1] and i != k - 1
+                r = dirty(i, j + 1, d) or dirty(i + 1, j, d or bad)
+            elif s[0] == 'lit':
+                same = comps[i].lower() == s[1].lower() if icase else comps[i] == s[1]
+                r = same and dirty(i + 1, j + 1, d)
+            else:
+                r = dirty(i + 1, j + 1, d)
+        memo[key] = r
+        return r
+    return dirty(0, 0, False)
+
+
 def link_flags(root, comps):
     out = []
     cur = root
